@@ -43,23 +43,50 @@ UNREACHED = {
 }
 
 
+TARGETS = [
+    ('t4_geom_convert.Kernel.Volume.CellConversion', 'CellConversion',
+     ['pot_transform', 'cell_transform', 'apply_trcl', 'pot_flag',
+      'pot_expand_surfs', 'pot_optimise', 'pot_to_t4_cell', 'convert_surface',
+      'convert_cellref', 'conv_equa', 'pot_convert', 'conv_union_helpers',
+      'conv_intersection', 'conv_union']),
+    ('t4_geom_convert.Kernel.Surface.CollectionDict', 'CollectionDict',
+     ['number_items']),
+    ('t4_geom_convert.Kernel.Volume.ConstructVolumeT4', None,
+     ['remove_empty_volumes', 'remove_unused_volumes',
+      'extract_used_surfaces']),
+    ('t4_geom_convert.Kernel.Volume.VolumeT4', 'VolumeT4',
+     ['__str__', 'empty']),
+    ('t4_geom_convert.Kernel.Volume.TreeFunctions', None,
+     ['largestPureIntersectionNode']),
+    ('t4_geom_convert.Kernel.Surface.Duplicates', None,
+     ['renumber_surfaces']),
+]
+MISSING = []        # names a rewrite removed or renamed (information only)
+
+
 def target_functions():
-    from t4_geom_convert.Kernel.Volume.CellConversion import CellConversion
-    from t4_geom_convert.Kernel.Surface.CollectionDict import CollectionDict
-    from t4_geom_convert.Kernel.Volume import ConstructVolumeT4, TreeFunctions
-    from t4_geom_convert.Kernel.Volume.VolumeT4 import VolumeT4
-    from t4_geom_convert.Kernel.Surface import Duplicates
-    cc = CellConversion
-    return [cc.pot_transform, cc.cell_transform, cc.apply_trcl, cc.pot_flag,
-            cc.pot_expand_surfs, cc.pot_optimise, cc.pot_to_t4_cell,
-            cc.convert_surface, cc.convert_cellref, cc.conv_equa,
-            cc.pot_convert, cc.conv_union_helpers, cc.conv_intersection,
-            cc.conv_union, CollectionDict.number_items,
-            ConstructVolumeT4.remove_empty_volumes,
-            ConstructVolumeT4.remove_unused_volumes,
-            ConstructVolumeT4.extract_used_surfaces, VolumeT4.__str__,
-            VolumeT4.empty, TreeFunctions.largestPureIntersectionNode,
-            Duplicates.renumber_surfaces]
+    '''Resolved tolerantly: a function that a rewrite renamed or removed is
+    skipped and recorded in MISSING (coverage is information, it never fails
+    a check).'''
+    import importlib
+    del MISSING[:]
+    out = []
+    for modname, clsname, names in TARGETS:
+        try:
+            owner = importlib.import_module(modname)
+            if clsname is not None:
+                owner = getattr(owner, clsname)
+        except (ImportError, AttributeError):
+            MISSING.append(f'{modname}.{clsname or ""}')
+            continue
+        for name in names:
+            func = getattr(owner, name, None)
+            if func is None or not hasattr(getattr(func, '__func__', func),
+                                           '__code__'):
+                MISSING.append(f'{clsname or modname}.{name}')
+                continue
+            out.append(func)
+    return out
 
 
 def _codes(code, out):
